@@ -501,6 +501,37 @@ Proof.
   intros ->; discriminate.
 Qed.
 
+Definition wf_scell (c : cell) : Prop := wf_scellb c = true.
+Definition wf_spcell (c : pcell) : Prop := wf_spcellb c = true.
+
+Lemma wf_cells_scells cs : Forall wf_cell cs -> Forall wf_scell cs.
+Proof.
+  apply Forall_impl; intros [g st] H; apply wf_cell_inv in H as [H _]; exact H.
+Qed.
+
+Lemma wf_pcells_spcells cs : Forall wf_pcell cs -> Forall wf_spcell cs.
+Proof.
+  apply Forall_impl; intros [g p]; unfold wf_pcell, wf_spcell, wf_pcellb, wf_spcellb; cbn [fst snd].
+  intros H; apply andb_prop in H as [H _]; exact H.
+Qed.
+
+(* without blank cells nothing is dropped / nothing is drawn as a space *)
+Lemma shown_cells_wf cs : Forall wf_cell cs -> shown_cells cs = map pcell_of cs.
+Proof.
+  unfold shown_cells; induction 1 as [|[g st] t Hc Ht IH]; [reflexivity|].
+  apply wf_cell_inv in Hc as [_ Hg]. cbn [filter]; unfold nonblank at 1; cbn [fst].
+  destruct g as [|r g]; [congruence|]. cbn [zlist_eqb list_eqb negb map]. f_equal; exact IH.
+Qed.
+
+Lemma shown_wf_pcells rgb smulx cs : Forall wf_pcell cs ->
+  map (fun c : pcell => (shown (fst c), eff_pen rgb smulx (snd c))) cs
+  = map (fun c : pcell => (fst c, eff_pen rgb smulx (snd c))) cs.
+Proof.
+  induction 1 as [|[g p] t Hc Ht IH]; [reflexivity|]. cbn [map fst snd]; rewrite IH.
+  unfold wf_pcell, wf_pcellb in Hc; cbn [fst snd] in Hc; apply andb_prop in Hc as [_ Hg].
+  destruct g; [discriminate | reflexivity].
+Qed.
+
 Lemma eff_pen_id p : eff_pen true true p = p.
 Proof. destruct p as [a1 a2 a3 a4 a5]; reflexivity. Qed.
 
@@ -512,33 +543,54 @@ Section RoundTrip.
   Hypothesis Hleg : legacy = true -> consumer_legacy_ok run.
 
   (* the encoder loop from any reachable cursor: every cell comes back with its own pen and
-     the string ends with the pen reset *)
+     the string ends with the pen reset (enc_loop_decode, below, for lists without blank cells) *)
+
+  (* ... and with blank cells (empty grapheme) anywhere in the list: the pen of a blank cell is
+     carried like any other, so every cell that has a grapheme still comes back with its own
+     pen and the string still ends reset *)
+  Lemma enc_loop_decode_blank cs : Forall wf_scell cs -> forall cur, wf_penb (spen cur) = true ->
+    decode run (spen cur) (enc_loop legacy cur cs) = Ok (shown_cells cs, pen0).
+  Proof.
+    induction cs as [|[g st] t IH]; intros Hwf cur Hcur.
+    - cbn [enc_loop]; unfold shown_cells; cbn [filter map]; destruct (style_eqb cur style0) eqn:E.
+      + apply style_eqb_pen in E; cbn [decode]; rewrite E; reflexivity.
+      + cbn [decode]; rewrite Hreset; reflexivity.
+    - inversion Hwf as [|? ? Hc Ht]; subst. unfold wf_scell, wf_scellb in Hc; cbn [snd] in Hc.
+      cbn [enc_loop]. rewrite decode_sgrs.
+      pose proof (delta_correct run Hok legacy Hleg true true (spen cur) (spen st) Hcur Hc) as D.
+      rewrite !eff_pen_id in D; rewrite D. rewrite decode_link.
+      destruct g as [|r g].
+      + change (shown_cells (([], st) :: t)) with (shown_cells t).
+        cbn [decode]. exact (IH Ht st Hc).
+      + change (shown_cells ((r :: g, st) :: t)) with ((r :: g, spen st) :: shown_cells t).
+        rewrite decode_text by discriminate. rewrite (IH Ht st Hc); reflexivity.
+  Qed.
+
   Lemma enc_loop_decode cs : Forall wf_cell cs -> forall cur, wf_penb (spen cur) = true ->
     decode run (spen cur) (enc_loop legacy cur cs) = Ok (map pcell_of cs, pen0).
   Proof.
-    induction cs as [|[g st] t IH]; intros Hwf cur Hcur.
-    - cbn [enc_loop map]; destruct (style_eqb cur style0) eqn:E.
-      + apply style_eqb_pen in E; cbn [decode]; rewrite E; reflexivity.
-      + cbn [decode]; rewrite Hreset; reflexivity.
-    - inversion Hwf as [|? ? Hc Ht]; subst. apply wf_cell_inv in Hc as [Hst Hg].
-      cbn [enc_loop]. rewrite decode_sgrs.
-      pose proof (delta_correct run Hok legacy Hleg true true (spen cur) (spen st) Hcur Hst) as D.
-      rewrite !eff_pen_id in D; rewrite D.
-      rewrite decode_link, decode_text by assumption.
-      rewrite (IH Ht st Hst); reflexivity.
+    intros Hwf cur Hcur. rewrite <- (shown_cells_wf cs Hwf).
+    apply enc_loop_decode_blank; [apply wf_cells_scells; assumption | assumption].
+  Qed.
+
+  Lemma render_loop_decode_blank rgb smulx cs : Forall wf_spcell cs -> forall cur, wf_penb cur = true ->
+    decode run (eff_pen rgb smulx cur) (render_loop legacy rgb smulx cur cs)
+    = Ok (map (fun c => (shown (fst c), eff_pen rgb smulx (snd c))) cs, pen0).
+  Proof.
+    induction cs as [|[g p] t IH]; intros Hwf cur Hcur.
+    - cbn [render_loop decode map]; rewrite Hreset; reflexivity.
+    - inversion Hwf as [|? ? Hp Ht]; subst.
+      unfold wf_spcell, wf_spcellb in Hp; cbn [snd] in Hp.
+      cbn [render_loop]. rewrite decode_sgrs, (delta_correct run Hok legacy Hleg rgb smulx cur p Hcur Hp).
+      rewrite decode_text by (destruct g; discriminate). rewrite (IH Ht p Hp); reflexivity.
   Qed.
 
   Lemma render_loop_decode rgb smulx cs : Forall wf_pcell cs -> forall cur, wf_penb cur = true ->
     decode run (eff_pen rgb smulx cur) (render_loop legacy rgb smulx cur cs)
     = Ok (map (fun c => (fst c, eff_pen rgb smulx (snd c))) cs, pen0).
   Proof.
-    induction cs as [|[g p] t IH]; intros Hwf cur Hcur.
-    - cbn [render_loop decode map]; rewrite Hreset; reflexivity.
-    - inversion Hwf as [|? ? Hc Ht]; subst.
-      unfold wf_pcell, wf_pcellb in Hc; cbn [fst snd] in Hc; apply andb_prop in Hc as [Hp Hg].
-      assert (Hg' : g <> []) by (intros ->; discriminate).
-      cbn [render_loop]. rewrite decode_sgrs, (delta_correct run Hok legacy Hleg rgb smulx cur p Hcur Hp).
-      rewrite decode_text by assumption. rewrite (IH Ht p Hp); reflexivity.
+    intros Hwf cur Hcur. rewrite render_loop_decode_blank; [|apply wf_pcells_spcells; assumption | assumption].
+    exact (f_equal (fun l => Ok (l, pen0)) (shown_wf_pcells rgb smulx cs Hwf)).
   Qed.
 End RoundTrip.
 
@@ -725,6 +777,29 @@ Proof.
   cbn; unfold pcell_eqb; cbn [fst snd]; rewrite list_eqb_Z_refl, pen_eqb_refl; exact IH.
 Qed.
 
+(* the round-trip predicate of the differential run *)
+Lemma cells_match_shown cs : cells_match (map pcell_of cs) (shown_cells cs) = true.
+Proof.
+  induction cs as [|[g st] t IH]; [reflexivity|].
+  destruct g as [|r g].
+  - change (shown_cells (([], st) :: t)) with (shown_cells t).
+    cbn [map pcell_of fst snd cells_match zlist_eqb list_eqb]. rewrite IH; reflexivity.
+  - change (shown_cells ((r :: g, st) :: t)) with ((r :: g, spen st) :: shown_cells t).
+    cbn [map pcell_of fst snd cells_match zlist_eqb list_eqb].
+    unfold pcell_eqb; cbn [fst snd]; rewrite list_eqb_Z_refl, pen_eqb_refl, IH; reflexivity.
+Qed.
+
+(* without blank cells it is plain equality of the cell lists (the predicate used before) *)
+Lemma cells_match_nonblank want : forallb nonblank want = true ->
+  forall got, cells_match want got = pcells_eqb got want.
+Proof.
+  induction want as [|[g p] t IH]; intros Hn got.
+  - destruct got; reflexivity.
+  - cbn [forallb] in Hn; apply andb_prop in Hn as [Hg Ht]; unfold nonblank in Hg; cbn [fst] in Hg.
+    cbn [cells_match]. destruct (zlist_eqb g []); [discriminate|].
+    destruct got as [|c got]; [reflexivity|]. cbn [pcells_eqb list_eqb]. rewrite (IH Ht got); reflexivity.
+Qed.
+
 Lemma forallb_Forall {A} (f : A -> bool) l : forallb f l = true -> Forall (fun x => f x = true) l.
 Proof. intros H; apply Forall_forall; apply forallb_forall; exact H. Qed.
 
@@ -745,22 +820,24 @@ Ltac use_eqs :=
          | X : res_only_cells_eqb (Ok _) _ = true |- _ => apply res_only_cells_eqb_ok in X
          end;
   repeat match goal with
+         | X : _ = shown_cells _ |- _ => rewrite X
          | X : _ = map _ _ |- _ => rewrite X
          | X : _ = pen0 |- _ => rewrite X
-         end; rewrite ?pcells_eqb_refl; try reflexivity.
+         end; rewrite ?cells_match_shown, ?pcells_eqb_refl; try reflexivity.
 
 (* An observation that equals the model's prediction satisfies the property predicate:
-   completely when the legacy quirk is off, and up to NewStyledString-on-EncodeCells when on. *)
+   completely when the legacy quirk is off, and up to NewStyledString-on-EncodeCells when on.
+   The cells may be blank (empty grapheme) anywhere. *)
 Theorem codec_model_holds c : codec_model_ok c = true ->
   codec_holds_gen false c = true /\ (fst (fst c) = false -> codec_holds c = true).
 Proof.
   destruct c as [[legacy cells] o]; unfold codec_holds, codec_model_ok, codec_holds_gen; cbn [fst].
-  destruct (forallb wf_cellb cells) eqn:W; [|split; reflexivity].
+  destruct (forallb wf_scellb cells) eqn:W; [|split; reflexivity].
   apply forallb_Forall in W. intros H.
   unfold parse_styled_string, term_feed, new_styled_string, encode_cells, ss_encode in H.
   change (decode parse_sgr) with (decode sgr_run) in H; change (decode term_sgr) with (decode sgr_run) in H.
-  pose proof (enc_loop_decode sgr_run sgr_run_ok sgr_run_reset legacy (sgr_legacy legacy) cells W style0 wf_pen0) as R1.
-  pose proof (enc_loop_decode (styled_sgr pen0) (styled_sgr_ok pen0) styled_reset false (no_legacy _) cells W style0 wf_pen0) as R2.
+  pose proof (enc_loop_decode_blank sgr_run sgr_run_ok sgr_run_reset legacy (sgr_legacy legacy) cells W style0 wf_pen0) as R1.
+  pose proof (enc_loop_decode_blank (styled_sgr pen0) (styled_sgr_ok pen0) styled_reset false (no_legacy _) cells W style0 wf_pen0) as R2.
   change (spen style0) with pen0 in R1, R2. rewrite R1, R2 in H.
   repeat (apply andb_prop in H as [H ?]).
   split; [|intros ->; rewrite R2 in *];
@@ -772,16 +849,16 @@ Theorem render_model_holds c : render_model_ok c = true ->
   render_holds_gen false c = true /\ (fst (fst (fst (fst c))) = false -> render_holds c = true).
 Proof.
   destruct c as [[[[legacy rgb] smulx] cells] o]; unfold render_holds, render_model_ok, render_holds_gen; cbn [fst].
-  destruct (forallb wf_pcellb cells) eqn:W; [|split; reflexivity].
+  destruct (forallb wf_spcellb cells) eqn:W; [|split; reflexivity].
   apply forallb_Forall in W. intros H.
   unfold parse_styled_string, term_feed, new_styled_string, render_row in H.
   change (decode parse_sgr) with (decode sgr_run) in H; change (decode term_sgr) with (decode sgr_run) in H.
-  pose proof (render_loop_decode sgr_run sgr_run_ok sgr_run_reset legacy (sgr_legacy legacy) rgb smulx cells W pen0 wf_pen0) as R1.
+  pose proof (render_loop_decode_blank sgr_run sgr_run_ok sgr_run_reset legacy (sgr_legacy legacy) rgb smulx cells W pen0 wf_pen0) as R1.
   rewrite eff_pen0 in R1. rewrite R1 in H.
   split.
   - repeat (apply andb_prop in H as [H ?]). use_eqs.
   - intros ->.
-    pose proof (render_loop_decode (styled_sgr pen0) (styled_sgr_ok pen0) styled_reset false (no_legacy _) rgb smulx cells W pen0 wf_pen0) as R2.
+    pose proof (render_loop_decode_blank (styled_sgr pen0) (styled_sgr_ok pen0) styled_reset false (no_legacy _) rgb smulx cells W pen0 wf_pen0) as R2.
     rewrite eff_pen0 in R2. rewrite R2 in H.
     repeat (apply andb_prop in H as [H ?]). use_eqs.
 Qed.
